@@ -450,7 +450,7 @@ def _is_d01(sub, case, v):
             and len(case["axes"]) == 1 and gen.is_gapped(case["axes"][0]["pairs"]))
 
 
-FINDINGS = [Finding("D01", _is_d01, "gapped bins with an integer content dtype: NaN marker cannot be stored")]
+FINDINGS = []
 
 SUBS = [
     Sub("same_bins", lambda tier: same_bins_cases(tier), check_same_bins, quick=500, thorough=4000),
